@@ -2,6 +2,7 @@ package props
 
 import (
 	"encoding/base64"
+	"errors"
 	"fmt"
 	"net/url"
 	"strings"
@@ -163,7 +164,20 @@ func (e *Eng) actDevicePoll() {
 		reqForm.Set("client_id", g.Client)
 		e.label("poll-public-basic-with-victim-client_id")
 	}
+	// now and then the store fails to revoke the access tokens while a replay is being answered: what can still be
+	// revoked (the refresh token, a separate store operation) is revoked all the same
+	revokeFailed := false
+	if d.Consumed && e.w.Tx != nil && e.cfg.Prop == "C16" && rapid.IntRange(0, 4).Draw(t, "accessTokenRevocationFails") == 0 {
+		e.w.W.Before = func(c *h.Call) error {
+			if c.Method == "RevokeAccessToken" {
+				revokeFailed = true
+				return errors.New("connection reset by peer")
+			}
+			return nil
+		}
+	}
 	tr := e.w.Token(reqForm, auth, h.TokenOpts{})
+	e.w.W.Before = nil
 	e.step("devicePoll:" + strings.Join(reasons, "+"))
 	e.logf("devicePoll %v by=%s reasons=%v -> %v", d, presenter, reasons, tr.Err)
 	has := func(x string) bool {
@@ -234,7 +248,17 @@ func (e *Eng) actDevicePoll() {
 		// "where the store reports it as already used the tokens issued from it are revoked": whoever presents it,
 		// and whether or not its own lifetime has passed meanwhile
 		onlyUsedAndExpired := len(reasons) == 1 || (len(reasons) == 2 && (has("expired") || has("foreign")))
-		if e.w.Tx != nil && onlyUsedAndExpired {
+		if e.w.Tx != nil && onlyUsedAndExpired && revokeFailed {
+			e.label("device-replay-with-failing-access-token-revocation")
+			for _, c := range g.Creds {
+				switch {
+				case c.Kind == "refresh" && c.Origin == "token":
+					e.setInactive(c, "C16/replay-did-not-revoke-tokens")
+				case c.Kind == "access" || c.Kind == "refresh":
+					e.setUnspec(c, "device-replay-with-failing-access-token-revocation")
+				}
+			}
+		} else if e.w.Tx != nil && onlyUsedAndExpired {
 			// the contract-following store reports the code as already used: its tokens are revoked
 			e.killFamily(g, "C16/replay-did-not-revoke-tokens")
 		} else {
